@@ -1417,10 +1417,20 @@ impl ASN1Value {
                     .iter()
                     .any(|enumeral| &enumeral.name == identifier)
                 {
-                    Ok(Some(ASN1Value::EnumeratedValue {
+                    let value = ASN1Value::EnumeratedValue {
                         enumerated: e.identifier.clone(),
                         enumerable: identifier.clone(),
-                    }))
+                    };
+                    // the ENUMERATED type itself is no wrapper, type references leading to it are
+                    supertypes.pop();
+                    if supertypes.is_empty() {
+                        Ok(Some(value))
+                    } else {
+                        Ok(Some(ASN1Value::LinkedNestedValue {
+                            supertypes,
+                            value: Box::new(value),
+                        }))
+                    }
                 } else {
                     Ok(None)
                 }
